@@ -5,7 +5,7 @@
    histories is compared between model and implementation. *)
 From Coq Require Import List ZArith Bool.
 From EosV Require Import lib.AList model.World model.Engine model.Ops proofs.Misc_p proofs.Status_p
-     proofs.Frame_p proofs.Owner_p proofs.Cinv_p proofs.Runs_p.
+     proofs.Frame_p proofs.Owner_p proofs.Cinv_p proofs.Runs_p model.Wf proofs.RunsC_p proofs.RunsD_p.
 Import ListNotations.
 
 Theorem C11_unregister_undoes_register :
@@ -47,6 +47,25 @@ Theorem C11_removed_item_is_listed_nowhere : forall w i p,
   CI w -> fitcont w i = None -> ~ In i (members w p).
 Proof. intros w i p (_ & M & _) H Hin. apply M in Hin. congruence. Qed.
 
+(* the same for what the removed item held (flat worlds, proofs/RunsC_p.v): removal of a directly held item
+   empties its autocharge dictionary, and everything that stays -- charges and autocharges of other items
+   included -- keeps running exactly the table's set (KJ = running-set invariant for directly held items and
+   for charges / autocharges, ownership, links child -> holder) *)
+Theorem C11_removed_holder_keeps_no_autocharges : forall n s m mit,
+  J (fst s) -> KK (fst s) -> get_item (fst s) m = Some mit -> direct mit ->
+  w_err (fst (remove_item (S (S (S (S n)))) s m)) = None ->
+  let w' := fst (remove_item (S (S (S (S n)))) s m) in
+  KK w' /\
+  exists mit', get_item w' m = Some mit' /\ i_loaded mit' = None /\ i_cont mit' = None /\ i_autos mit' = [] /\
+               i_charge mit' = i_charge mit.
+Proof.
+  intros n s m mit Js K Hm D He. destruct (remove_dir n s m mit Js K Hm D He) as (K' & _ & (x & G & H1 & H2 & H3 & _ & _ & H6)).
+  split; [exact K'|]. exists x. repeat split; assumption.
+Qed.
+Theorem C11_removal_keeps_charge_invariants : forall s i,
+  KJ (fst s) -> w_err (fst (remove_item F s i)) = None -> KJ (fst (remove_item F s i)).
+Proof. exact remove_KJ. Qed.
+
 Example C11_nonvacuous :
   ks_rm_entry neqb Nat.eqb (ks_add_entry neqb Nat.eqb [(1%nat, [5%nat])] 2%nat 7%nat) 2%nat 7%nat
   = [(1%nat, [5%nat])].
@@ -57,3 +76,5 @@ Print Assumptions C11_unloading_stops_every_effect.
 Print Assumptions C11_removed_item_is_inert.
 Print Assumptions C11_removal_touches_nothing_else.
 Print Assumptions C11_removed_item_is_listed_nowhere.
+Print Assumptions C11_removed_holder_keeps_no_autocharges.
+Print Assumptions C11_removal_keeps_charge_invariants.
